@@ -560,6 +560,9 @@ class Runner:
                             raise Boom()
             except (Boom, Abort):
                 blk['failed'] = True
+            except Violation as v:
+                blk['failed'] = True
+                blk['violation'] = v
             except Exception as e:        # noqa
                 blk['failed'] = True
                 blk['unexpected_escape'] = e
@@ -587,6 +590,8 @@ class Runner:
         self.m.Routine.run(self.sync_task(prog, blk, done), clocks[prog['clock']])
         if not done.wait(wait):
             return False
+        if blk.get('violation') is not None:
+            raise blk['violation']
         self.stream.append(('syncblock', blk))
         self.count('sync_blocks_failed' if blk['failed'] else 'sync_blocks_ok')
         return True
